@@ -190,12 +190,85 @@ def run_revisions(k: int, case: dict) -> dict:
         shutil.rmtree(d, ignore_errors=True)
 
 
+def run_late(k: int, case: dict) -> dict:
+    """send_signal of an id BEFORE any definition of it is imported, after the first definition is imported, and after
+    a second module redefines the signal under the same id - from the first client and from a brand-new one."""
+    from pyrtma.parser import Parser
+    from pyrtma.compilers.python import PyDefCompiler
+    from pyrtma.client import Client
+    d = Path(tempfile.mkdtemp(prefix="vcli_"))
+    cwd = os.getcwd()
+    res = dict(ok=False, err="", frames=[])
+    try:
+        built = {}
+        for j, rev in enumerate(case["revs"]):
+            rd = d / f"rev{j}"
+            for rel, text in rev["files"].items():
+                p = rd / rel
+                p.parent.mkdir(parents=True, exist_ok=True)
+                p.write_text(text)
+            parser = Parser(import_coredefs=True)
+            for h in list(parser.logger.handlers):
+                parser.logger.removeHandler(h)
+            parser.logger.addHandler(logging.NullHandler())
+            with contextlib.redirect_stdout(io.StringIO()), contextlib.redirect_stderr(io.StringIO()):
+                parser.parse(rd / rev["root"])
+                out = d / f"vlate_{k}_{j}.py"
+                PyDefCompiler(parser).generate(out)
+            built[j] = (parser, out)
+
+        def load(j):
+            name = f"vlate_{k}_{j}"
+            spec = importlib.util.spec_from_file_location(name, built[j][1])
+            mod = importlib.util.module_from_spec(spec)
+            sys.modules[name] = mod
+            spec.loader.exec_module(mod)
+            return mod
+
+        def client():
+            a, b = socket.socketpair()
+            c = Client(module_id=11)
+            c._sock = a
+            c._connected = True
+            return c, b
+
+        def grab(b, step, who, expect_rev):
+            f = HDR.unpack(recv_exact(b, HDR.size))
+            ph = built[expect_rev][0].message_defs[case["revs"][expect_rev]["signal"]].hash if expect_rev is not None else "0" * 64
+            res["frames"].append(dict(path="send_signal", step=step, client=who, expect_rev=expect_rev, parser_hash=ph,
+                                      version=f[11], msg_type=f[0], nbytes=f[8]))
+        sid = case["id"]
+        with contextlib.redirect_stdout(io.StringIO()):
+            c1, b1 = client()
+            c1.send_signal(sid)
+            grab(b1, "before-any-definition", "first", None)
+            m0 = load(0)
+            c1.send_signal(getattr(m0, "MT_" + case["revs"][0]["signal"]))
+            grab(b1, "after-first-import", "first", 0)
+            if len(case["revs"]) > 1:
+                m1 = load(1)
+                c1.send_signal(getattr(m1, "MT_" + case["revs"][1]["signal"]))
+                grab(b1, "after-redefinition", "first", 1)
+                c2, b2 = client()
+                c2.send_signal(getattr(m1, "MT_" + case["revs"][1]["signal"]))
+                grab(b2, "after-redefinition", "brand-new", 1)
+        res["ok"] = True
+        return res
+    except BaseException as e:  # noqa
+        res["err"] = f"{type(e).__name__}: {e}\n" + traceback.format_exc()[-600:]
+        return res
+    finally:
+        os.chdir(cwd)
+        shutil.rmtree(d, ignore_errors=True)
+
+
 def main():
     cases = json.load(sys.stdin)
     real = os.fdopen(os.dup(1), "w")     # keep the result channel; children (black) inherit fd 1 = stderr
     os.dup2(2, 1)
     sys.stdout = sys.stderr
-    out = [(run_revisions(k, c) if "revs" in c else run_case(k, c)) for k, c in enumerate(cases)]
+    out = [(run_late(k, c) if c.get("late") else run_revisions(k, c) if "revs" in c else run_case(k, c))
+           for k, c in enumerate(cases)]
     json.dump(out, real)
     real.flush()
 
